@@ -150,7 +150,12 @@ func vcProfRulesKey(name string) model.ProfileRulesKey {
 // U-pol: tiers / policies / profiles / label inheritance / ordering
 
 func vcUniversePol() *vcUniverse {
-	return &vcUniverse{Name: "pol", Keys: []vcKeyDef{
+	return &vcUniverse{Name: "pol", Batch: []vcBatchKey{
+		// every pair of {valid, invalid, delete} over three keys of validated kinds
+		{Key: "p1rules", Choices: []string{"allow", "X", "-"}},
+		{Key: "pA", Choices: []string{"t1o2both", "X", "-"}},
+		{Key: "w1", Choices: []string{"A", "X", "-"}},
+	}, Keys: []vcKeyDef{
 		{Name: "w1", Key: vcWEPKey(vcLocal, "w1"), Vars: []vcVariant{
 			{Name: "A", Make: vcWEP("cali1", map[string]string{"a": "1"}, []string{"p1"}, []string{"10.0.0.1/32"}, vcPort("http", "tcp", 80))},
 			// own label b overrides the b inherited from p1; profile order differs
@@ -203,7 +208,11 @@ func vcUniversePol() *vcUniverse {
 // U-set: IP sets (rule selectors, named ports, negation), shared IPs, remote endpoints, network sets
 
 func vcUniverseSet() *vcUniverse {
-	return &vcUniverse{Name: "set", Keys: []vcKeyDef{
+	return &vcUniverse{Name: "set", Batch: []vcBatchKey{
+		{Key: "p1rules", Choices: []string{"sel", "X", "-"}},
+		{Key: "pA", Choices: []string{"srcA2", "-"}},
+		{Key: "w1", Choices: []string{"A", "B", "-"}},
+	}, Keys: []vcKeyDef{
 		{Name: "w1", Key: vcWEPKey(vcLocal, "w1"), Vars: []vcVariant{
 			{Name: "A", Make: vcWEP("cali1", map[string]string{"a": "1"}, []string{"p1"}, []string{"10.0.0.1/32"}, vcPort("http", "tcp", 80))},
 			{Name: "B", Make: vcWEP("cali1", map[string]string{"a": "2"}, nil, []string{"10.0.0.2/32", "10.0.0.1/32"}, vcPort("http", "udp", 80))},
@@ -523,6 +532,21 @@ func vcPlan(c *vk.Ctx, prop *vcProp) []vcPlanItem {
 			}
 		}
 	}
+	// multi-update batches (one OnUpdates call carrying 2-3 KVs): depth 2, at most one batch per history
+	for _, un := range vcPropUniverses(prop) {
+		if len(us[un].Batch) == 0 {
+			continue
+		}
+		bases := []string{"empty", "full", "dangling", "flap"}
+		if c.Quick() {
+			bases = prop.QuickBatchBases[un]
+		}
+		for _, base := range bases {
+			if pre, ok := vcBases[un][base]; ok {
+				plan = append(plan, vcPlanItem{U: us[un], Base: base, Pre: pre, Depth: 2, Batch: true})
+			}
+		}
+	}
 	if c.Quick() {
 		for _, un := range prop.QuickDeep {
 			add(un, "empty", 4, false)
@@ -554,6 +578,9 @@ func vcAllPlanItems(prop *vcProp) []vcPlanItem {
 		for base, pre := range vcBases[un] {
 			for d := 1; d <= 6; d++ {
 				plan = append(plan, vcPlanItem{U: u, Base: base, Pre: pre, Depth: d}, vcPlanItem{U: u, Base: base, Pre: pre, Depth: d, Tree: true})
+				if len(u.Batch) > 0 {
+					plan = append(plan, vcPlanItem{U: u, Base: base, Pre: pre, Depth: d, Batch: true})
+				}
 			}
 		}
 	}
